@@ -123,7 +123,8 @@ impl<'a, D> Johnson75<'a, D> {
     ///
     /// # Panics
     ///
-    /// Panics if there is a bug in [`Tarjan::components`].
+    /// * Panics if the digraph's vertices aren't `0..order`.
+    /// * Panics if there is a bug in [`Tarjan::components`].
     ///
     /// # Examples
     ///
@@ -151,6 +152,13 @@ impl<'a, D> Johnson75<'a, D> {
     where
         D: FilterVertices + Order + OutNeighbors + Vertices,
     {
+        let order = self.a.order();
+
+        assert!(
+            self.a.vertices().all(|u| u < order),
+            "the digraph's vertices aren't contiguous"
+        );
+
         let mut result = Vec::new();
 
         for s in self.a.vertices() {
